@@ -159,6 +159,23 @@ def tag_rec(c, facts, R, prefix_desc=''):
                          fn.loc()), **inst)
 
 
+def unify_helpers(facts, fn):
+    """same-module private functions that unify() delegates the binding of a variable to (`bind_variable(sets, var, other)`):
+    [(helper fn, [call terminators in unify])] for helpers that call occurs() or UnionFind::union"""
+    import pathrules as P
+    out = []
+    mod = fn.qname.rsplit('::', 1)[0]
+    seen = {}
+    for bi, t in fn.calls():
+        info = callee_of(t)
+        h = facts.fns.get((info or {}).get('resolved_id') or (info or {}).get('id')) if info else None
+        if h is None or not h.mir or h is fn or not h.qname.startswith(mod + '::') or h.qname.split('::')[-1] in ('occurs', 'unify'):
+            continue
+        if P.call_blocks(h, 'UnionFind::union') or P.call_blocks(h, 'unify::occurs'):
+            seen.setdefault(h.qname, (h, []))[1].append((bi, t))
+    return list(seen.values())
+
+
 def occurs_before_union(c, facts, R):
     """every UnionFind::union call in unify() is dominated by the false edge of an occurs() call"""
     fn = c.anchor(R, 'oal_compiler::inference::unify::unify')
@@ -173,7 +190,27 @@ def occurs_before_union(c, facts, R):
             occ_sw.append((bi, t))
         if P.callee_matches(info, ['UnionFind::union']):
             unions.append((bi, t))
-    c.floor(R, 'union call sites in unify()', len(unions), 2)
+    # union sites reached through a helper count once per call of the helper, and are checked inside the helper
+    import pathrules as P
+    helper_sites = 0
+    for h, calls in unify_helpers(facts, fn):
+        hocc = P.call_blocks(h, 'unify::occurs')
+        for ubi, ut in P.call_blocks(h, 'UnionFind::union'):
+            helper_sites += len(calls)
+            ok = False
+            for obi, ot in hocc:
+                term = h.mir['blocks'][ot['target']]['term']
+                if term['t'] != 'switch' or term['discr'].get('l') != ot['dest']['l']:
+                    continue
+                false_t = [b for v, b in term['targets'] if v == '0']
+                if false_t and h.dominates(false_t[0], ubi) and ubi not in h.reachable_from(term['otherwise'], avoid=[false_t[0]]):
+                    ok = True
+            inst = {'helper': h.qname, 'union_call_line': ut['ln'], 'guarded_by_occurs_false_edge': ok, 'called_from_unify': len(calls)}
+            if ok:
+                c.ok(R, inst)
+            else:
+                c.bad(R, 'union-not-guarded:%s' % h.qname.split('::')[-1], '%s: a UnionFind::union call is not dominated by the false edge of an occurs() check' % h.qname)
+    c.floor(R, 'union call sites in unify()', len(unions) + helper_sites, 2)
     for ubi, ut in unions:
         ok = False
         for obi, ot in occ_sw:
@@ -222,6 +259,41 @@ def var_first(c, facts, R):
                 c.ok(R, inst)
             else:
                 c.bad(R, 'union-first-arg-not-var:%d' % n, 'unify(): union() re-parents an operand that the guarding pattern did not prove to be Tag::Var (%s:%s)' % (fn.file, e['ln']))
+    # union inside a helper: its first argument must be a parameter of the helper, and unify() must pass the operand
+    # proven Var by the guarding `if let` in that position
+    from facts import callee_id
+    for h, calls in unify_helpers(facts, fn):
+        pidx = None
+        for e, anc in hir_walk(h.hir['body']):
+            if e['k'] == 'mcall' and e['m'].endswith('UnionFind::union'):
+                a0 = e['args'][0]
+                while a0['k'] in ('addr', 'unary') or (a0['k'] == 'mcall' and a0['name'] == 'clone'):
+                    a0 = a0['e'] if a0['k'] != 'mcall' else a0['recv']
+                if a0['k'] == 'path' and a0['p'].get('res') == 'local':
+                    for i, prm in enumerate(h.hir['params']):
+                        if prm['k'] == 'bind' and prm['hid'] == a0['p']['hid']:
+                            pidx = i
+        if pidx is None:
+            continue
+        for e, anc in hir_walk(fn.hir['body']):
+            if e['k'] == 'call' and callee_id(e) == h.id and pidx < len(e['args']):
+                n += 1
+                a0 = e['args'][pidx]
+                while a0['k'] in ('addr', 'unary') or (a0['k'] == 'mcall' and a0['name'] == 'clone'):
+                    a0 = a0['e'] if a0['k'] != 'mcall' else a0['recv']
+                hid = a0['p']['hid'] if a0['k'] == 'path' and a0['p'].get('res') == 'local' else None
+                guard = None
+                for parent, lab in reversed(anc):
+                    if parent['k'] == 'if' and lab[0] == 'then' and parent['cond']['k'] == 'let' and 'Var' in pat_variants(parent['cond']['pat']):
+                        g = parent['cond']['init']
+                        while g['k'] in ('addr', 'unary'):
+                            g = g['e']
+                        guard = g['p']['hid'] if g['k'] == 'path' and g['p'].get('res') == 'local' else None
+                        break
+                if hid is not None and hid == guard:
+                    c.ok(R, {'helper': h.qname, 'call_line': e['ln'], 'variable_argument_is_guarded_var': True})
+                else:
+                    c.bad(R, 'union-first-arg-not-var:%s:%d' % (h.qname.split('::')[-1], n), 'unify() hands %s an operand as "the variable" that the guarding pattern did not prove to be Tag::Var (%s:%s)' % (h.qname, fn.file, e['ln']))
     c.floor(R, 'union call sites (HIR)', n, 2)
 
 
@@ -326,6 +398,9 @@ def identity_first(c, facts, R):
     fn = c.anchor(R, 'oal_compiler::inference::unify::unify')
     eqs = [(b, t) for b, t in P.call_blocks(fn, 'PartialEq::eq', 'PartialEq::ne') if 'Tag' in (callee_of(t).get('self_ty') or '')]
     occ = P.call_blocks(fn, 'unify::occurs')
+    for h, calls in unify_helpers(facts, fn):
+        if P.call_blocks(h, 'unify::occurs'):
+            occ = occ + calls      # the call of the helper stands for the occurs check it performs
     if not occ:
         c.bad(R, 'no-occurs-call', 'unify() no longer performs an occurs check')
         return
